@@ -215,7 +215,7 @@ def impl(case):
 
 def make_case(rng, i, tier):
     R = rng.choice(["Float", "Float", "Float", "Real", "Boolean", "MaxTimes"])
-    desc, shape = gen.gen_cfg(rng, maxrules=6 if tier == "quick" else 8)
+    desc, shape = gen.gen_cfg(rng, maxrules=6 if tier == "quick" else 8, shape="unary_scc_chord" if rng.random() < 0.2 else None)
     if R == "Boolean":
         desc = gen.to_bool(desc)
     if R == "MaxTimes":
